@@ -12,6 +12,7 @@ import TnVerif.Model.Anova
 import TnVerif.Model.Dual
 import TnVerif.Model.Ortho
 import TnVerif.Model.Round
+import TnVerif.Model.Maxvol
 /-
   Line-protocol driver (DESIGN §2.6).  One request per line on stdin, one answer per line on
   stdout.  Tokens are separated by blanks; numbers are integers or `p/q`.
@@ -322,6 +323,26 @@ def run (cmd : String) : PM String := do
       let d2 ← pQ
       let rmax ← pNat
       return s!"ok R {rankSelect (a.toList.map (·.v)) d2.v rmax}"
+  | "maxvol" => do
+      let r ← pNat; let n ← pNat; let tol ← pQ; let fuel ← pNat
+      let a ← pArr (r * n)
+      let idx ← pNatList
+      let c : Nat → Nat → Rat := fun k l => if k < r ∧ l < n then (a.getD (k * n + l) 0).v else 0
+      let st : MVState Rat := { C := c, idx := fun k => idx.getD k 0 }
+      -- re-materialise the coefficient matrix after every swap (closures would nest)
+      let mut s := st
+      let mut swaps : Array (Nat × Nat) := #[]
+      for _ in [0:fuel] do
+        let (i, j) := argmaxAbs s.C r n
+        if tol.v < absR (s.C i j) then
+          let s' := mvSwap s i j
+          let arr : Array Rat := Array.ofFn (n := r * n) fun t => s'.C (t.val / n) (t.val % n)
+          let ids : Array Nat := Array.ofFn (n := r) fun t => s'.idx t.val
+          s := { C := fun k l => if k < r ∧ l < n then arr.getD (k * n + l) 0 else 0, idx := fun k => ids.getD k 0 }
+          swaps := swaps.push (i, j)
+        else break
+      let fin := (List.range r).map s.idx
+      return "ok " ++ showNats fin ++ " swaps " ++ showNats (swaps.toList.flatMap fun p => [p.1, p.2])
   | _ => throw s!"unknown command {cmd}"
 
 def handle (line : String) : String :=
